@@ -216,7 +216,8 @@ class Ctx:
         old = self.failures.get(sig)
         if old is None or size < old['size']:
             self.failures[sig] = dict(detail=str(detail)[:4000], example=ex,
-                                      size=size)
+                                      size=size,
+                                      batch=getattr(self, 'batch', None))
         if self.target_sig is not None and sig == self.target_sig:
             raise _ShrinkHit(sig)
 
@@ -338,32 +339,45 @@ def _run_history(ctx, sub, data, steps_max, replay=None):
         ctx.fail_exc(exc, 'unexpected')
 
 
-def _hypothesis_pass(ctx, sub, n, shrink):
+BATCH = 50
+
+
+def _hypothesis_pass(ctx, sub, n, shrink, only_batch=None):
+    """
+    Run n examples in batches of BATCH (own derived seed per batch).  The
+    soft wall-clock budget is checked between batches only: skipping inside a
+    Hypothesis run would make data generation depend on the clock.
+    """
     import hypothesis
     from hypothesis import given, strategies as st
     steps_max = sub.steps[0 if ctx.tier == 'quick' else 1]
-
-    if sub.machine is not None:
-        @hypothesis.seed(ctx.seed)
-        @_hyp_settings(n, shrink)
-        @given(st.data())
-        def test(data):
-            if ctx.deadline and time.time() > ctx.deadline and not shrink:
-                ctx.skipped += 1
-                return
-            _run_history(ctx, sub, data, steps_max)
-    else:
+    strategy = None
+    if sub.machine is None:
         strategy = sub.strategy() if callable(sub.strategy) else sub.strategy
+    nbatches = (n + BATCH - 1) // BATCH
+    for b in range(nbatches):
+        if only_batch is not None and b != only_batch:
+            continue
+        size = min(BATCH, n - b * BATCH)
+        if not shrink and ctx.deadline and time.time() > ctx.deadline:
+            ctx.skipped += size
+            continue
+        ctx.batch = b
+        bseed = ctx.seed * 4099 + b
 
-        @hypothesis.seed(ctx.seed)
-        @_hyp_settings(n, shrink)
-        @given(strategy)
-        def test(example):
-            if ctx.deadline and time.time() > ctx.deadline and not shrink:
-                ctx.skipped += 1
-                return
-            _run_one(ctx, sub, example)
-    test()
+        if sub.machine is not None:
+            @hypothesis.seed(bseed)
+            @_hyp_settings(size, shrink)
+            @given(st.data())
+            def test(data):
+                _run_history(ctx, sub, data, steps_max)
+        else:
+            @hypothesis.seed(bseed)
+            @_hyp_settings(size, shrink)
+            @given(strategy)
+            def test(example):
+                _run_one(ctx, sub, example)
+        test()
 
 
 def find_sub(mod, name):
@@ -401,7 +415,9 @@ def run_task(task):
                     sctx = Ctx(prop, subname, tier, shard_seed, shard,
                                nshards, known, target_sig=sig)
                     try:
-                        _hypothesis_pass(sctx, sub, n, shrink=True)
+                        _hypothesis_pass(sctx, sub, n, shrink=True,
+                                         only_batch=ctx.failures[sig].get(
+                                             'batch'))
                     except _ShrinkHit:
                         pass
                     except Exception:  # pylint: disable=broad-except
